@@ -10,9 +10,9 @@ import (
 
 	"verifharness/common"
 	_ "verifharness/engines/headerproof"
+	_ "verifharness/engines/lightclient"
 	_ "verifharness/engines/lookup"
 	_ "verifharness/engines/net"
-	_ "verifharness/engines/lightclient"
 	_ "verifharness/engines/stateproof"
 	_ "verifharness/engines/store"
 	_ "verifharness/engines/table"
